@@ -1,6 +1,7 @@
 """C15 — callbacks and iterators deliver every item once, in order, until told to stop.
 Case format: '15 | row' with row either
- '0 sink stop method item..'  sink: 0 closure returning false on its stop-th call (0 = never), 1 &mut Vec, 2 VecDeque::from_extend();
+ '0 sink stop method item..'  sink: 0 closure returning false on its stop-th call (0 = never), 1 &mut Vec, 2 VecDeque::from_extend(), 3 a closure fed twice,
+                              4 the closure fed from a BORROWED source (methods 0 &mut iter, 1 extend(&mut iter), 2 CIterator over &mut iter: third row = what the source yields afterwards);
                               method: 0 iter.feed_into_mut(&mut cb), 1 cb.extend(iter), 2 iter.feed_into(cb), 3/4 a manual loop over Callbackable::call on the callback / on &mut callback
      output rows: [count (or -1 for extend)] ; items the sink holds afterwards ; items never offered (dropped by the source), in order
  '1 n op*n script..'          ops: 0 next() on a CIterator wrapped around the source, 1 next() on the source itself;
@@ -64,7 +65,17 @@ def gen_cases(rng, tier):
     for _ in range(60 if tier == "quick" else 1500):
         n = rng.range(0, 30)
         cases.append("15 | 0 3 %d %d %s" % (rng.range(0, n + 2), rng.below(2), " ".join(str(rng.range(0, 899)) for _ in range(n)))); nre += 1
-    return cases, {"reused_callback_cases": nre, "feed_exhaustive": nfeed, "iter_exhaustive": len(cases) - nfeed - nrand, "random": nrand}
+    # sink kind 4: a BORROWED source (&mut iterator; method 2 = a CIterator around it) fed into a stopping closure; the third output row is what the
+    # source still yields afterwards — the model's "rest is left to the source" (C15_feed / C15_extend), which owned sources cannot show
+    nbor = 0
+    for n in range(0, 7):
+        for method in (0, 1, 2):
+            for stop in range(0, n + 2):
+                cases.append("15 | 0 4 %d %d %s" % (stop, method, " ".join(str(40 + i) for i in range(n)))); nbor += 1
+    for _ in range(60 if tier == "quick" else 1500):
+        n = rng.range(0, 40)
+        cases.append("15 | 0 4 %d %d %s" % (rng.range(0, n + 2), rng.below(3), " ".join(str(rng.range(0, 899)) for _ in range(n)))); nbor += 1
+    return cases, {"borrowed_source_cases": nbor, "reused_callback_cases": nre, "feed_exhaustive": nfeed, "iter_exhaustive": len(cases) - nfeed - nrand, "random": nrand}
 
 
 def model_line(l):
@@ -73,6 +84,9 @@ def model_line(l):
     if len(t) > 4 and t[2] == "0" and t[3] == "3":
         items = t[6:]
         return " ".join(t[:2] + ["2", t[4], t[5], str(len(items))] + items)
+    # kind 4 (borrowed source): the model's plain feed case with a closure sink; methods 0 and 2 (through a CIterator) are feed_into_mut, 1 is extend
+    if len(t) > 4 and t[2] == "0" and t[3] == "4":
+        return " ".join(t[:2] + ["0", "0", t[4], "1" if t[5] == "1" else "0"] + t[6:])
     return l
 
 
